@@ -174,23 +174,21 @@ pub fn c09_simple_glyph_total() {
     kani::cover!(r.is_ok(), "three points decoded");
 }
 
-// @bound SimpleGlyph with a concrete frame (1 contour, 2 points, no instructions) and 6 ARBITRARY symbolic bytes of flag / coordinate data: read_points_fast never panics; unwind 4
+// @bound SimpleGlyph with a concrete frame (1 contour, 3 points, no instructions) and 3 ARBITRARY symbolic bytes of flag data (no room for coordinate bytes: points can still decode through the same-as-previous flags): read_points_fast never panics (3 points is the smallest glyph in which a repeat count can follow a non-repeated flag); unwind 5
 // @c20
 // @c01
-// @timeout 600
+// @timeout 700
 #[cfg_attr(kani, kani::proof)]
-#[cfg_attr(kani, kani::unwind(4))]
-pub fn c09_read_points_fast_total_2_points() {
-    let d: [u8; 6] = kani::any();
+#[cfg_attr(kani, kani::unwind(5))]
+pub fn c09_read_points_fast_total_3_points() {
+    let d: [u8; 3] = kani::any();
     let bb: [u8; 8] = kani::any();
-    let buf = [
-        0, 1, bb[0], bb[1], bb[2], bb[3], bb[4], bb[5], bb[6], bb[7], 0, 1, 0, 0, d[0], d[1], d[2], d[3], d[4], d[5],
-    ];
+    let buf = [0, 1, bb[0], bb[1], bb[2], bb[3], bb[4], bb[5], bb[6], bb[7], 0, 2, 0, 0, d[0], d[1], d[2]];
     let Ok(g) = SimpleGlyph::read(FontData::new(&buf)) else { return };
-    let mut pts = [Point::<i32>::default(); 2];
-    let mut fl = [PointFlags::default(); 2];
+    let mut pts = [Point::<i32>::default(); 3];
+    let mut fl = [PointFlags::default(); 3];
     let r = g.read_points_fast(&mut pts, &mut fl);
-    kani::cover!(r.is_ok() && d[1] & 0x08 != 0, "second point through a repeat flag");
+    kani::cover!(r.is_ok() && d[1] & 0x08 != 0, "points decoded through a repeat flag");
     kani::cover!(r.is_err(), "truncated data rejected");
 }
 
